@@ -24,7 +24,7 @@ from vf.spec import Ref, RefInternal, make_user_problem
 
 ID = "C14"
 LEVEL = "exploration"
-BUDGET = {"quick": 40, "thorough": 1200}
+BUDGET = {"quick": 40, "thorough": 4000}
 RULE = (
     "case = (internal-style spec, in-box point with components on bounds, y, dt, rho); every case "
     "runs all step-solver x linear-solver x Newton-variant combinations (executions = combos). "
